@@ -103,6 +103,15 @@ def special_modules():
         M("SpManyOptional", "  T ::= SEQUENCE { %s, z BOOLEAN }" % ", ".join("o%d [%d] INTEGER OPTIONAL" % (i, i) for i in range(12))),
         M("SpDefaults", "  T ::= SEQUENCE { a INTEGER DEFAULT 5, b BOOLEAN DEFAULT TRUE, c ENUMERATED { x, y } DEFAULT y, d INTEGER (0..7) DEFAULT three, e OCTET STRING DEFAULT '0102'H, "
                         "f IA5String DEFAULT \"hi\", g T2 DEFAULT { a 1 }, h REAL DEFAULT 0 }\n  T2 ::= SEQUENCE { a INTEGER }\n  three INTEGER ::= 3", "AUTOMATIC"),
+        M("SpNegDefault", "  T ::= SEQUENCE { a INTEGER DEFAULT -5, b INTEGER (-10..10) DEFAULT -1, c BOOLEAN }", "AUTOMATIC"),
+        M("SpManyMembers", "  T ::= SEQUENCE { %s }\n  U ::= SET { %s }\n  V ::= CHOICE { %s }\n  W ::= ENUMERATED { %s }" % (
+            ", ".join("o%d INTEGER OPTIONAL" % i for i in range(70)), ", ".join("o%d INTEGER%s" % (i, " OPTIONAL" if i % 3 == 0 else "") for i in range(40)),
+            ", ".join("o%d NULL" % i for i in range(300)), ", ".join("e%d" % i for i in range(300))), "AUTOMATIC"),
+        M("SpRefChains", "  A ::= B\n  B ::= INTEGER (0..4294967295)\n  C ::= A (0..100)\n  D ::= SEQUENCE { a A, c C OPTIONAL, l SEQUENCE OF A }\n  E ::= ENUMERATED { a, b }\n  F ::= E\n  G ::= [3] F\n"
+                        "  S ::= SET { a [0] INTEGER, b [1] BOOLEAN OPTIONAL }\n  T ::= S\n  U ::= [APPLICATION 3] S\n  L ::= SEQUENCE (SIZE(1..4)) OF INTEGER (0..7)\n  M ::= L\n  N ::= M (SIZE(2))\n"
+                        "  V ::= SEQUENCE { f F, g G, l SET OF F, t T, u U, m M, n N }"),
+        M("SpUnions", "  A ::= INTEGER (MIN..-1 | 1..MAX)\n  B ::= OCTET STRING (SIZE(1 | 3..5))\n  C ::= INTEGER (0..MAX, ...)\n  D ::= INTEGER (MIN..MAX)\n  E ::= INTEGER (1 | 3 | 5, ..., 7)\n"
+                      "  F ::= SEQUENCE { a A, b B, c C, d D, e E }\n  U ::= INTEGER\n  T ::= OCTET STRING (CONTAINING U)"),
         M("SpComponentsOf", "  A ::= SEQUENCE { a INTEGER, b BOOLEAN }\n  B ::= SEQUENCE { COMPONENTS OF A, c NULL }", "AUTOMATIC"),
         M("SpWithComponents", "  A ::= SEQUENCE { a INTEGER OPTIONAL, b BOOLEAN OPTIONAL }\n  B ::= A (WITH COMPONENTS { a PRESENT, b ABSENT })\n  C ::= A (WITH COMPONENTS { ..., a (0..5) })"),
         M("SpStrings", "  A ::= IA5String (SIZE(1..5)) (FROM(\"a\"..\"z\"))\n  B ::= UTF8String (SIZE(0..MAX))\n  C ::= BMPString (FROM(\"A\"..\"Z\"))\n  D ::= UniversalString (SIZE(2))\n"
